@@ -286,6 +286,8 @@ def _rsa_pubkey_parsing(subject_public_key_info, cert_alg):
     # definition
     n = bytesToNumber(modulus.value)
     e = bytesToNumber(public_exponent.value)
+    if not n or not e:
+        raise SyntaxError("RSA public key with zero modulus or exponent")
 
     # Create a public key instance
     public_key = _createPublicRSAKey(n, e, cert_alg)
